@@ -1,5 +1,6 @@
 import LettreVerif.Proofs.HeaderReader
 import LettreVerif.Proofs.Headers
+import LettreVerif.Proofs.DkimSig
 /-!
 # C02 — Header section is well-formed and injection-proof for any supplied text
 
@@ -77,5 +78,13 @@ example :
     scan .norm v = some .norm ∧
     (split (str "Subject: " ++ v ++ str "\r\n\r\nbody")).map (fun r => (r.1.length, r.2)) = some (1, str "body") := by
   decide
+
+/-- **Folding is transparent.** A value all of whose words are printable ASCII and not of the shape `=?…?=` is written
+    without any encoding, and an RFC 5322 reader that unfolds the field body reads exactly the value: folding neither
+    adds nor removes nor moves a single octet of it. -/
+theorem plain_value_unfolds_to_itself (n : Nat) (value : Bytes)
+    (h : ∀ x ∈ splitInclusive [] value, HeaderEnc.PlainWord x) :
+    HeaderReader.unfold (encodeValue opts n value) = value :=
+  HeaderEnc.unfold_encodeValue_plain n value h
 
 end LV.C02
